@@ -34,6 +34,10 @@ structure SlimMsg where
   innerPrefixes : Option VLenArrayMsg := none -- field 38
   leafPrefixes : Option VLenArrayMsg := none  -- field 58
   leaves : Option VLenArrayMsg := none        -- field 60
+  /-- Raw bytes of top-level fields with unknown numbers (golang/protobuf keeps them in
+      `XXX_unrecognized` and writes them back after the known fields); the retired fields
+      12, 13, 15 of 0.5.10/0.5.11 streams end up here. -/
+  unrecognized : Bytes := []
   deriving Repr, DecidableEq, Inhabited
 
 namespace BitmapMsg
